@@ -9,7 +9,7 @@ use s3s::dto::PartNumber;
 
 use std::env;
 use std::ops::Not;
-use std::path::{Path, PathBuf};
+use std::path::{Component, Path, PathBuf};
 use std::sync::atomic::{AtomicU64, Ordering};
 
 use tokio::fs;
@@ -61,17 +61,42 @@ impl FileSystem {
         self.resolve_abs_path(format!(".upload_id-{upload_id}.part-{part_number}"))
     }
 
-    /// resolve object path under the virtual root
+    /// resolve object path: the key never leaves the directory of its bucket
     pub(crate) fn get_object_path(&self, bucket: &str, key: &str) -> Result<PathBuf> {
-        let dir = Path::new(&bucket);
-        let file_path = Path::new(&key);
-        self.resolve_abs_path(dir.join(file_path))
+        let mut path = self.get_bucket_path(bucket)?;
+        let mut depth: usize = 0;
+        for component in Path::new(key).components() {
+            match component {
+                Component::Normal(name) => {
+                    path.push(name);
+                    depth += 1;
+                }
+                Component::CurDir => {}
+                Component::ParentDir => {
+                    if depth == 0 {
+                        return Err(Error::from_string("object key escapes its bucket"));
+                    }
+                    path.pop();
+                    depth -= 1;
+                }
+                Component::RootDir | Component::Prefix(_) => {
+                    return Err(Error::from_string("object key must be a relative path"));
+                }
+            }
+        }
+        if depth == 0 {
+            return Err(Error::from_string("object key does not name an object"));
+        }
+        Ok(path)
     }
 
-    /// resolve bucket path under the virtual root
+    /// resolve bucket path: a single path component directly below the root
     pub(crate) fn get_bucket_path(&self, bucket: &str) -> Result<PathBuf> {
-        let dir = Path::new(&bucket);
-        self.resolve_abs_path(dir)
+        let mut components = Path::new(bucket).components();
+        match (components.next(), components.next()) {
+            (Some(Component::Normal(name)), None) if name == bucket => Ok(self.root.join(name)),
+            _ => Err(Error::from_string("invalid bucket name")),
+        }
     }
 
     /// resolve metadata path under the virtual root (custom format)
